@@ -235,6 +235,17 @@ func (f *VerifFlightPacker) Budgets(cryptoLen int) (maxFrameBytes []int, retrans
 // AFTER packing (offset, data) in registration order.
 func (f *VerifFlightPacker) Pack() (payload []byte, registered []VerifCF, packed bool, err error) {
 	pkt, err := f.up.PackCoalescedPacket(false, f.maxSize, monotime.Now(), protocol.Version1)
+	return f.record(pkt, err)
+}
+
+// Probe calls PackPTOProbePacket for the Initial packet number space (addPingIfEmpty as the
+// connection does); results as Pack.
+func (f *VerifFlightPacker) Probe() (payload []byte, registered []VerifCF, packed bool, err error) {
+	pkt, err := f.up.PackPTOProbePacket(protocol.EncryptionInitial, f.maxSize, true, monotime.Now(), protocol.Version1)
+	return f.record(pkt, err)
+}
+
+func (f *VerifFlightPacker) record(pkt *coalescedPacket, err error) (payload []byte, registered []VerifCF, packed bool, _ error) {
 	if err != nil || pkt == nil {
 		f.sent = append(f.sent, nil) // `Lose` addresses Pack calls
 		f.live = append(f.live, false)
